@@ -113,7 +113,7 @@ TReturn ==
   /\ UNCHANGED <<cfg, sc, clean>>
 
 \* a call that never returned or panicked: reported by the driver; the scenario ends there
-TAbnormal == /\ Ev.e \in {"hang", "panic"} /\ PrintT(<<"PFLAG", sc, l, ToJson({"abnormal-" \o Ev.e})>>)
+TAbnormal == /\ Ev.e \in {"hang", "panic"} /\ PrintT(<<"PFLAG", sc, l, ToJson({(IF clean THEN "abnormal-" ELSE "faulty-abnormal-") \o Ev.e})>>)
              /\ sync' = FALSE /\ pcall' = NoCall /\ cur' = NoCur /\ exs' = <<>> /\ UNCHANGED <<cfg, sc, c, open, clean>>
 
 Handled == \/ Ev.e \in {"reset", "call", "ret", "hang", "panic"}
